@@ -107,6 +107,8 @@ Section Generate.
         match map_opt (fun x => build_ext fx sha1 x bits issuer_bits) (cc_exts c) with
         | None => None
         | Some exts =>
+          (* a date before the year 0 (a local date 0000-01-01 east of Greenwich) cannot be written as GeneralizedTime *)
+          if ((w_y (to_utc (vl_from val) (ob_off_from o)) <? 0) || (w_y (to_utc (vl_until val) (ob_off_until o)) <? 0))%Z then None else
           Some (mkTcert (or_default (m_version m) 2%Z)
                         (if (cc_serial c =? 0)%Z then ob_serial o else cc_serial c)
                         (or_default inner dflt)
